@@ -69,6 +69,19 @@ func c01Oracle(routes []rRoute, q rReq, o rObs) string {
 	return ""
 }
 
+// c01SpecWire: the same observation in the format of the L1 outcome (no path for 404/405)
+func c01SpecWire(o rObs) string {
+	switch o.Kind {
+	case 'D':
+		return wJoin("D", wInt(o.Hid), wStr(o.PPath), wStrs(o.Names), wStrs(o.Values))
+	case 'N':
+		return "N"
+	case 'M':
+		return wJoin("M", wStrs(o.Allow))
+	}
+	return "P"
+}
+
 func c01Run(ci any) Result {
 	c := ci.(*c01Case)
 	var cur rObs
@@ -81,7 +94,7 @@ func c01Run(ci any) Result {
 	rServe(e, &cur, c.Req)
 	res := Result{
 		Ops: wJoin(rTableWire(c.Routes), wStr(c.Req.Method), wStr(c.Req.Path), wInt(rMaxParam(c.Routes))),
-		Obs: cur.wire(),
+		Obs: cur.wire() + " // " + c01SpecWire(cur),
 	}
 	if !rHasTextAfterStar(c.Routes) {
 		res.Oracle = c01Oracle(c.Routes, c.Req, cur)
@@ -187,6 +200,6 @@ func init() {
 		Run:            c01Run,
 		Shrink:         c01Shrink,
 		Known:          c01Known,
-		Correspondence: "Router.find ∘ Router.build (lean/EchoModel/Router.lean, L3) vs Echo.Add + Echo.ServeHTTP (Router.insert/Find, context.ParamValues)",
+		Correspondence: "Router.find ∘ Router.build (L3, lean/EchoModel/Router.lean) AND Router.Spec.routeTable (L1, the model of the theorems) vs Echo.Add + Echo.ServeHTTP (Router.insert/Find, context.ParamValues)",
 	})
 }
